@@ -419,7 +419,7 @@ def build(repo):
     f = u.method(ST, 'LpgStore', 'discard_uncommitted_versions').D1().props('C02')
     f.sub('E3', 'pub fn discard_uncommitted_versions(&self,', 'pub fn discard_uncommitted_versions(&mut self,')
     f.resub('E3', r'[ \t]*let mut (nodes|edges) = self\.\1\.write\(\);\n', '', count=2)
-    f.resub('E3', r'(?<![\.\w])(nodes|edges)\.(values_mut|retain)\(', r'self.\1.\2(')
+    f.resub('E3', r'(?<![\.\w])(nodes|edges)\.', r'self.\1.')        # every use of the lock guard goes to the field
     f.R32().R33()
     f.ensures('node_versions_rolled_back', 'rolled_back(old(self).nodes@, final(self).nodes@, tx_id)', ['C02'])
     f.ensures('edge_versions_rolled_back', 'rolled_back(old(self).edges@, final(self).edges@, tx_id)', ['C02'])
